@@ -246,20 +246,6 @@ theorem tail_fix_visible :
     stripMarkers (builderRun Buffer.init [.unsafeString [0x61, 0xC3], .safeString [0x62]]).redactableBytes
       = [0x61, 0xC3, 0x3F, 0x62] := by decide
 
-/-- Well-formed UTF-8: a sequence of complete characters. -/
-inductive Utf8 : List Byte → Prop
-  | nil : Utf8 []
-  | cons (r p : List Byte) : validRuneB r = true → Utf8 p → Utf8 (r ++ p)
-
-/-- Every valid UTF-8 payload meets the hypothesis of the two equalities. -/
-theorem endsRune_of_utf8 {p : List Byte} (h : Utf8 p) : EndsRune p := by
-  induction h with
-  | nil => exact Or.inl rfl
-  | cons r p hr _ ih =>
-    rcases ih with rfl | ⟨q, r', rfl, hr'⟩
-    · exact Or.inr ⟨[], r, by simp, hr⟩
-    · exact Or.inr ⟨r ++ q, r', by simp, hr'⟩
-
 theorem endsRune_snoc_ascii (q : List Byte) (c : Byte) (hc : c < 0x80) : EndsRune (q ++ [c]) :=
   Or.inr ⟨q, [c], rfl, by simpa [validRuneB] using hc⟩
 
